@@ -377,3 +377,68 @@ pub fn id_digest(cycles: usize) -> (u64, Vec<usize>) {
     });
     (h.finish(), grew)
 }
+
+/// The deep history with `slots` slots cycled together: (new_node x slots; remove x slots)^n.
+/// Oracle (C06): every id is fresh; while the batch is live its ids report not-removed and every
+/// earlier id of the stripe reports removed; after the removals every id reports removed.
+pub fn run_batch_stripe(cycles: usize, slots: usize, stripe: usize, stripes: usize) -> DeepResult {
+    let mut res = DeepResult::default();
+    let mut arena: Arena<Payload> = Arena::new();
+    let mut seen: HashSet<NodeId> = HashSet::new();
+    let r = guarded(|| {
+        for c in 0..cycles {
+            let mut batch = Vec::new();
+            for _ in 0..slots {
+                let id = arena.new_node(Payload(0));
+                if !seen.insert(id) {
+                    res.failures.push((c, fail(C06, "fresh-id", "id-reissued",
+                        format!("cycle {c} of (new_node x{slots}; remove x{slots}): new_node returned {} which was issued before", fmt_id(Some(id))))));
+                    return;
+                }
+                batch.push(id);
+            }
+            for id in &batch {
+                if id.is_removed(&arena) {
+                    res.failures.push((c, fail(C06, "is_removed", "live-id-reports-removed",
+                        format!("cycle {c}: live id {} reports is_removed", fmt_id(Some(*id))))));
+                    return;
+                }
+            }
+            let mut k = stripe;
+            while k < res.ids.len() {
+                res.is_removed_checks += 1;
+                if !res.ids[k].is_removed(&arena) {
+                    res.failures.push((c, fail(C06, "is_removed", "removed-id-reports-live",
+                        format!("cycle {c} of (new_node x{slots}; remove x{slots}): id {} removed in an earlier cycle reports is_removed() == false", fmt_id(Some(res.ids[k]))))));
+                    return;
+                }
+                k += stripes;
+            }
+            for id in &batch {
+                res.ids.push(*id);
+                id.remove(&mut arena);
+            }
+            let mut k = res.ids.len().saturating_sub(slots);
+            while k < res.ids.len() {
+                if !res.ids[k].is_removed(&arena) {
+                    res.failures.push((c, fail(C06, "is_removed", "removed-id-reports-live",
+                        format!("after cycle {c}: the id {} just removed reports is_removed() == false", fmt_id(Some(res.ids[k]))))));
+                    return;
+                }
+                k += 1;
+            }
+            res.cycles_done = c + 1;
+        }
+    });
+    if let Err(m) = r {
+        let c = res.cycles_done;
+        res.failures.push((c, Failure {
+            props: C06 | C07 | crate::step::C05,
+            judge: "deep-run",
+            shaping: true,
+            sig: "deep-run|deep-cycle|-|valid-call-panicked".into(),
+            detail: format!("the library panicked in cycle {c} of (new_node x{slots}; remove x{slots}): {m}"),
+        }));
+    }
+    res
+}
